@@ -109,6 +109,20 @@ DRV_OP(da_fill) {
     if (a.size() != 3) throw ProtoError("da_fill arity");
     return guarded([&]() { std::vector<double> v = dl(a[2]); slot(a[1]).a.setData(v); return std::string(); });
 }
+// da_fills <array slot> [strings]  : the same with a vector of strings
+DRV_OP(da_fills) {
+    if (a.size() != 3) throw ProtoError("da_fills arity");
+    return guarded([&]() { std::vector<std::string> v = sl(a[2]); slot(a[1]).a.setData(v); return std::string(); });
+}
+// da_append <array slot> [doubles]  /  da_appends <array slot> [strings] : appendData along axis 0 of a 1-d array
+DRV_OP(da_append) {
+    if (a.size() != 3) throw ProtoError("da_append arity");
+    return guarded([&]() { std::vector<double> v = dl(a[2]); slot(a[1]).a.appendData(nix::DataType::Double, v.data(), nix::NDSize({v.size()}), 0); return std::string(); });
+}
+DRV_OP(da_appends) {
+    if (a.size() != 3) throw ProtoError("da_appends arity");
+    return guarded([&]() { std::vector<std::string> v = sl(a[2]); slot(a[1]).a.appendData(nix::DataType::String, v.data(), nix::NDSize({v.size()}), 0); return std::string(); });
+}
 // da_read1 <array slot> => ok [doubles]  (whole array as doubles, 1-d)
 DRV_OP(da_read1) {
     if (a.size() != 2) throw ProtoError("da_read1 arity");
